@@ -1,5 +1,6 @@
 import SstModel
 import Driver.Proto
+import Driver.Cmds
 open Sst Sst.Proto
 
 /-- One request line in, one response line out. Unknown or ill-formed requests answer `bad-op`
@@ -32,7 +33,10 @@ def handle (line : String) : String :=
           if Judge.c17 a b isep isucc then "ok" else "fail"]
       | _, _ => "bad-op"
     | _, _ => "bad-op"
-  | _ => "bad-op"
+  | words =>
+    match Sst.Cmds.handle words with
+    | some r => r
+    | none => "bad-op"
 
 partial def loop (hin hout : IO.FS.Stream) : IO Unit := do
   let line ← hin.getLine
